@@ -22,6 +22,7 @@ Proved (safety part of C14):
   pushes into an open bucket (the SATB barrier of ConcurrentImmix during concurrent marking) the
   state "the only worker waits, a runnable packet exists, no wake-up in flight" is reachable
   (kernel-evaluated witness run).  This is the race the comment in `park_and_wait` describes.
+* `designated_not_forgotten` — designated work exists only during a GC and never while all workers wait.
 * `gc_never_sleeps_partial` — the proved part of "each GC request eventually leads to a completed
   collection": while a Gc goal is current, never do all workers wait (no deadlock inside a GC), and
   the transition that makes the last worker wait has no request pending.
@@ -86,6 +87,14 @@ theorem all_parked_no_work {c : Cfg} (hn : 0 < c.n) (hmut : c.mutAddOpen = false
   unfold covers at hc
   cases hp : s.pc x <;> rw [hp] at hc h1 <;> first | exact hc | (exact absurd rfl (h2 _ )) | cases h1
   all_goals exact h2 _ hp
+
+/-- designated work (packets only one worker may run) is never forgotten: it exists only while a Gc
+goal is current, so (by `gc_never_sleeps_partial`) never while all workers wait; and the last parked
+worker that finds designated work wakes everybody (`on_last_parked`, first branch). -/
+theorem designated_not_forgotten {c : Cfg} (hn : 0 < c.n) {s : State} (h : Reachable c s) (x : Nat) (hx : x < c.n)
+    (hd : s.desig x ≠ []) : s.current = some .gc ∧ ∃ y, y < c.n ∧ s.pc y ≠ .waiting := by
+  have hg := reachable_invD hn h x hx hd
+  exact ⟨hg, no_lost_request hn h (Or.inr (by rw [hg]; simp))⟩
 
 /-- **C14 (liveness, proved part)** inside a GC the workers never all sleep: if every worker waits,
 no goal is current and nothing is requested. -/
